@@ -12,7 +12,7 @@ ASSUMPTIONS = ["bit positions are non-negative (negative positions wrap in numpy
 
 
 def histories(rng, tier):
-    n = 120 if tier == 'quick' else 2500
+    n = 300 if tier == 'quick' else 2500
     out = []
     for _ in range(n):
         covord = rng.choice([0, 0, 1])
